@@ -109,6 +109,48 @@ def build_shared_cf(sk):
     return {"a": a, "c": cond}, {"o": res[0]}
 
 
+def build_shared_leak(sk, derived):
+    """As build_shared_cf, but the shared control-flow node is a LOOP whose body stashes a value that depends on the body's own argument
+    (a side effect of the callback); the Loop's result is used in the scopes `un` (so its body is reached from several graphs during
+    discovery) and the stashed value in the scopes `uv`: with uv non-empty the program leaks a body-local value and must be rejected,
+    whichever of the graphs discovery visits first."""
+    parents, kinds, un, uv, rev = sk
+    n = len(kinds)
+    children = {s: [t for t in range(1, n) if parents[t - 1] == s] for s in range(n)}
+    a = B.argument(B.Tensor(F32, (2,)))
+    cond = B.argument(B.Tensor(np.bool_, ()))
+    stash = []
+
+    def lbody(i, c, x):
+        stash.append(op.add(x, x) if derived else x)
+        return [c, op.relu(x)]
+
+    node = op.loop(op.const(np.array(2, np.int64)), v_initial=[a], body=lbody)[0]
+    leaked = stash[0]
+
+    def scope_body(s, body_arg):
+        parts = []
+        for t in children[s]:
+            if kinds[t] == "I":
+                parts.append(op.if_(cond, then_branch=lambda t=t: scope_body(t, None), else_branch=lambda: [op.identity(a)])[0])
+            else:
+                parts.append(op.loop(op.const(np.array(2, np.int64)), v_initial=[a], body=lambda i, c, x, t=t: [c] + scope_body(t, x))[0])
+        if s in un:
+            parts.append(op.abs(node))
+        if s in uv:
+            parts.append(op.neg(leaked))
+        if body_arg is not None:
+            parts.append(op.identity(body_arg))
+        if not parts:
+            parts.append(op.identity(a))
+        if rev:
+            parts.reverse()
+        return [op.sum(parts)]
+
+    res = scope_body(0, None)
+    return {"a": a, "c": cond}, {"o": res[0]}
+
+
 def descendants(parents, s):
     out = {s}
     for i in range(len(parents) + 1):
@@ -374,6 +416,15 @@ def run(run: Run) -> int:
         ins, outs = build_shared_cf(sk)
         meta = {"skeleton": [list(sk[0]), list(sk[1]), {"shared-control-flow-node used in": list(sk[2]), "its operand used in": list(sk[3]),
                                                         "reversed": sk[4]}], "legal": True}
+        cases.append(B.Case(ins, outs, False, meta))
+    # the same shapes with a shared LOOP whose body leaks a body-local value: its body is reached from several graphs during discovery
+    # (memoised claims); the leak must be diagnosed wherever it is used
+    leaky = [sk for sk in shared if len(sk[3]) == 1 and len(sk[2]) == 2]
+    stp = max(1, len(leaky) // (250 if quick else 100000))
+    for j, sk in enumerate(leaky[run.rng.randrange(stp)::stp]):
+        ins, outs = build_shared_leak(sk, derived=(j % 2 == 0))
+        meta = {"skeleton": [list(sk[0]), list(sk[1]), {"shared Loop used in": list(sk[2]), "value leaked from its body used in": list(sk[3]),
+                                                        "reversed": sk[4], "derived": j % 2 == 0}], "legal": False, "fixed": True}
         cases.append(B.Case(ins, outs, False, meta))
     # ONE callback function object handed to several constructor calls (two If nodes of one model; both branches of one If; a Loop body
     # used twice): each application is its own operator application with its own bodies - a legal program, emitted once each
